@@ -115,6 +115,17 @@ def cascade_specs():
         out.append({"fn": None, "freevars": [], "first_line": 1, "stacksize": 1, "min_version": 7,
                     "blocks": [[["jrel", 2, 1, 0], ["jabs", 1, 1, 1], ["FILL", "noarg", 0, n, 1]], [["jabs", 2, 2, 0], ["FILL", "noarg", 0, 5, 2]],
                                [["jabs", 0, 3, 0], ["noarg", None, 3, 2]]]})
+    # deep cascade: k jumps at the start whose targets are k consecutive one-instruction blocks, the last of
+    # them just over the one-byte operand limit: every pass of the width fix point widens exactly one more jump
+    # (the previous widening moved the next target over the limit), so it needs k+1 passes
+    for k in (4, 6, 8, 12, 20):
+        for t in (126, 127, 128, 129, 254, 255, 256, 257):
+            fill = t - 2 * k + 1
+            if fill < 1:
+                continue
+            first = [["jabs", j, 1, 0] for j in range(k, 0, -1)] + [["FILL", "noarg", 0, fill, 1]]
+            out.append({"fn": None, "freevars": [], "first_line": 1, "stacksize": 1, "min_version": 7,
+                        "blocks": [first] + [[["noarg", None, 2, 2]] for _ in range(k)]})
     return out
 
 
